@@ -71,7 +71,7 @@ THEOREMS = [
         # Props/C03c.lean
         "miles_integrand_is_normSq miles_white_noise_integral miles_is_white_noise_integral "
         # Props/C03d.lean (srs_frf as a routine)
-        "srs_frf_sort_spec srs_frf_grid_spec srs_frf_grid_gap srs_frf_grid_head srs_frf_interp_segment srs_frf_interp_node srs_frf_interp_zero_outside srs_frf_is_max_over_merged_grid srs_frf_rigid_body_is_zero srs_frf_entries srs_frf_abs_invariant srs_frf_scale_by_Q srs_frf_scale_by_Q_default_is_Q_times_abs srs_frf_return_defaults srs_frf_default_frq_puts_peak_on_frf_lines srs_frf_resp_shapes srs_frf_getresp_with_scale_by_Q_raises srs_frf_p_peak_maximises_H srs_frf_le_flat_bound srs_frf_vrs_consistent "
+        "srs_frf_sort_spec srs_frf_grid_spec srs_frf_grid_gap srs_frf_grid_head srs_frf_interp_segment srs_frf_interp_node srs_frf_interp_zero_outside srs_frf_is_max_over_merged_grid srs_frf_rigid_body_is_zero srs_frf_entries srs_frf_value_spec srs_frf_abs_invariant srs_frf_scale_by_Q srs_frf_scale_by_Q_default_is_Q_times_abs srs_frf_return_defaults srs_frf_default_frq_puts_peak_on_frf_lines srs_frf_resp_shapes srs_frf_getresp_with_scale_by_Q_raises srs_frf_p_peak_maximises_H srs_frf_le_flat_bound srs_frf_vrs_consistent "
         # Props/C03e.lean (frequency vector, 0 Hz steady, packaging, callable peaks)
         "srs_column_depends_only_on_its_frequency srs_rolled_column_depends_only_on_its_frequency srs_rows_follow_the_frequency_vector srs_frequency_permutation srs_repeated_frequency_repeats_row srs_zero_hz_steady_history srs_zero_hz_steady_absacce_is_constant srs_columnwise srs_shapes srs_hist_lengths_uniform srs_packaging_1d eqsine_commutes_iff_homogeneous peak_sel_pos_homogeneous mean_square_not_homogeneous eqsine_history_divided_before_peak srs_callable_peak_eqsine srs_string_peak_is_callable_instance peak_rms_le_abs"
     ).split()
